@@ -378,6 +378,29 @@ def run_linop(ctx, prop, prop_file, n_quick, n_thorough, want):
             except Exception as e:
                 note_fail("overload-exception", "an overload raised %s: %s" % (type(e).__name__, str(e)[:160]),
                           {"kind": "impl-exception", "error": repr(e), "chain": chain(e)})
+    # ---- operands are inputs too (C02): building S + C, S - C, a*S, S*C from a kept operator S leaves S as it was ----
+    if "pure" in want and "dense" not in want:
+        for k in range(ctx.n(20, 300)):
+            try:
+                T1 = lingen.gen_tree(sp, rng, rng.choice([0, 1]), None, lingen.EXACT_LEAVES, True, [])
+                if int(np.prod(T1.ishape)) > 24 or int(np.prod(T1.oshape)) > 36:
+                    continue
+                a = complex(rng.randint(1, 3), rng.randint(1, 3))
+                Ssum = T1 + a * T1
+                xk = cvec(rng, Ssum.ishape, True)
+                before, nlin = np.asarray(Ssum(xk)).copy(), len(getattr(Ssum, "linops", []))
+                T3 = lingen.shape_preserving(sp, rng, list(T1.ishape), True)[0]
+                _ = [Ssum + T1, Ssum - T1, a * Ssum, Ssum * T3, Ssum + (T1 + T1)]
+                after = np.asarray(Ssum(xk))
+                ctx.count(prop + ":operand-kept", key=(repr(T1)[:80], k), nontrivial=True)
+                if len(getattr(Ssum, "linops", [])) != nlin or after.shape != before.shape or not np.array_equal(after, before):
+                    note_fail("operand-mutated", "a kept sum operator S gives a different S(x) after S + C, S - C, a*S, S*C were built from it",
+                              {"kind": "oracle", "A": repr(T1)[:200], "terms_before": nlin, "terms_after": len(getattr(Ssum, "linops", [])),
+                               "x": np.ravel(xk).tolist().__repr__()})
+            except RecursionError:
+                note_fail("operand-mutated", "building expressions from a kept sum operator made it refer to itself (RecursionError)", {"kind": "oracle"})
+            except Exception as e:
+                note_fail("overload-exception", "an overload raised %s: %s" % (type(e).__name__, str(e)[:160]), {"kind": "impl-exception", "error": repr(e)})
     # ---- malformed stream ----
     if "reject" in want:
         for _ in range(ctx.n(60, 600)):
